@@ -330,12 +330,20 @@ func (c *Ctx) connectValidation() {
 		c.R.Unresolved("message.ConnectMessage.decodeMessage")
 		return
 	}
-	g := paths.New(c.P, fn, 0)
+	// validations moved into helpers of the message (a method returning an error) are followed
+	g := paths.New(c.P, fn, 2)
+	g.Expand = func(callee *ssa.Function, site ssa.CallInstruction) bool {
+		if callee.Blocks == nil || recvNamed(callee) != "ConnectMessage" || callee == fn {
+			return false
+		}
+		rs := callee.Signature.Results()
+		return rs.Len() >= 1 && types.Identical(rs.At(rs.Len()-1).Type(), types.Universe.Lookup("error").Type())
+	}
 	entry := []paths.Node{g.Entry()}
 	pos := c.P.Pos(fn.Pos())
 	okReturn := func(n paths.Node) bool {
 		ret, ok := n.Instr.(*ssa.Return)
-		if !ok {
+		if !ok || n.F != g.Root {
 			return false
 		}
 		k, ok := ir.ReturnOperand(ret, len(ret.Results)-1).(*ssa.Const)
